@@ -257,3 +257,42 @@ Fixpoint heap_extends (h h' : list obj) : bool :=
 Definition count_type (t : ty) (h : list obj) : nat := length (filter (fun o => Nat.eqb (otype o) t) h).
 Definition count_destroyed_by (t : ty) (h : list obj) : nat :=
   length (filter (Nat.eqb t) (flat_map destroyed_by h)).
+
+(* ---- re-entrant payloads: a payload whose destructor reaches back to the pointer that owns it ("a child unregisters
+   itself from its parent") and calls reset() on it, assigns nullptr to it, moves from it or move-assigns an empty
+   pointer onto it.  reset() is unique_ptr::reset(nullptr):
+       old = stored pointer;  stored pointer = nullptr;  if (old) get_deleter()(old)        — in THIS order,
+   so the owner is already empty while the deleter (and with it the payload's destructor) runs.  reset_reentrant writes
+   the three stages out; that the re-entrant actions then do nothing and the whole is the plain Reset step is proved in
+   QuaintProofs.v (reentrant_reset_is_reset), which carries every theorem about histories over to such payloads. ---- *)
+Inductive reentry := ReReset | ReAssignNull | ReMoveFrom | ReMoveAssignEmpty.
+
+(* stage 1: the pointer forgets its pointee *)
+Definition forget (st : qstate) (i : nat) : qstate := mkQ (heap st) (setn (pool st) i (Live None)) (vec st).
+
+(* stage 2: what the destructor body of the pointee does to slot i *)
+Definition reenter (st : qstate) (i : nat) (a : reentry) : qstate :=
+  match a with
+  | ReReset => q_step st (Reset i)                     (* owner.reset() *)
+  | ReAssignNull => q_step st (AssignNull i)           (* owner = nullptr *)
+  | ReMoveFrom =>                                      (* { quaint_ptr tmp(std::move(owner)); }  — tmp dies at once *)
+      match is_live (nth_error (pool st) i) with
+      | Some p => let '(n, src) := move_out p in mkQ (release (heap st) n) (setn (pool st) i (Live src)) (vec st)
+      | None => st
+      end
+  | ReMoveAssignEmpty =>                               (* owner = quaint_ptr() *)
+      match is_live (nth_error (pool st) i) with
+      | Some p => mkQ (release (release (heap st) p) None) (setn (pool st) i (Live None)) (vec st)
+      | None => st
+      end
+  end.
+
+(* pool[i].reset() where the pointee's destructor performs `acts` on pool[i]; stage 3: the pointee is destroyed *)
+Definition reset_reentrant (st : qstate) (i : nat) (acts : list reentry) : qstate :=
+  match is_live (nth_error (pool st) i) with
+  | Some p =>
+      let st1 := forget st i in
+      let st2 := fold_left (fun s a => reenter s i a) acts st1 in
+      mkQ (release (heap st2) p) (pool st2) (vec st2)
+  | None => st
+  end.
